@@ -392,16 +392,16 @@ func runSess(c *corr.Ctx, sc *Scenario) {
 	cs.Impl = append(cs.Impl, "ok")
 	var order []int
 	seq := uint16(0)
+	nextCid := 0
 
 	for i, op := range sc.Ops {
 		w.clock++
 		switch op.K {
 		case "xconn":
 			ip := unhexIP(op.IP)
-			w.mu.Lock()
-			_, dup := w.conns[op.Conn]
-			w.mu.Unlock()
+			dup := op.Conn < nextCid // connection ids are never reused
 			if !dup {
+				nextCid = op.Conn + 1
 				ci := &connInfo{cid: op.Conn, ip: ip, zone: op.Zone, opened: make(chan struct{}), closed: make(chan struct{})}
 				w.mu.Lock()
 				w.conns[op.Conn] = ci
